@@ -7,8 +7,8 @@ from vf import core, lib, ref, spaces
 PID = "C02"
 LEVEL = "exploration"
 RULE = ("all team shapes with n<=4 (quick) / n<=5 (thorough) teams of 1..3 players plus three 8-team shapes with up to 8 players; "
-        "every slot gets a distinct (mu, sigma), name and id (and again with all players equal-valued, and with equal-valued twin teams in "
-        "non-adjacent slots, where only ids/names tell slots apart); every weak order (n<=5) / every tie pattern x generator "
+        "every slot gets a distinct (mu, sigma), name and id (and again with all players equal-valued, with equal-valued twin teams in "
+        "non-adjacent slots, where only ids/names tell slots apart, and with converged players (sigma 1e-4 beta) under tau = 0); every weak order (n<=5) / every tie pattern x generator "
         "permutation (n=8) x encodings {int ranks, float ranks, negative ranks, scores, omitted} x limit_sigma {off, "
         "model-level, per-call} (n = 5: int ranks and scores x {off, per-call}); oracle: nesting, id and name per slot, each posterior inside the reference interval of "
         "THAT player, passed objects all untouched or all equal to the returned rating of the same slot; non-trivial = "
@@ -29,13 +29,15 @@ def game_for(shape, b, assign="distinct"):
             g.append([slot_value(k + j, b) for j in range(sz)])
         elif assign == "same":  # fresh default players everywhere: only ids and names tell the slots apart
             g.append([(6 * b, 2 * b)] * sz)
+        elif assign == "tiny":  # converged players rated without tau: team variances far below kappa (no team may be dropped)
+            g.append([(slot_value(k + j, b)[0], 1e-4 * b * (1 + (k + j) % 3)) for j in range(sz)])
         else:  # "twins": every team is a copy of one of two value patterns, so equal-valued teams sit in non-adjacent slots
             g.append([slot_value(j + (0 if len(g) % 2 == 0 else 3), b) for j in range(sz)])
         k += sz
     return g
 
 
-ASSIGN = ("distinct", "same", "twins")
+ASSIGN = ("distinct", "same", "twins", "tiny")
 
 
 def enc_args(enc, r):
@@ -54,7 +56,7 @@ LS_MODES = ("off", "model", "call")
 
 
 def eval_case(kind, shape, r, enc, ls, assign="distinct"):
-    cfg = spaces.config("K5" if ls == "model" else "K0")
+    cfg = spaces.config("K3" if assign == "tiny" else ("K5" if ls == "model" else "K0"))
     game = game_for(shape, cfg.beta, assign)
     model = cfg.make(kind)
     names = [[f"t{i}p{j}" for j in range(len(T))] for i, T in enumerate(game)]
@@ -78,6 +80,8 @@ def eval_case(kind, shape, r, enc, ls, assign="distinct"):
     rcls = type(objs[0][0])
     eff_r = list(r) if enc != "omitted" else list(range(len(game)))
     iv = ref.rate(kind, game, eff_r, cfg.beta, cfg.kappa, cfg.tau, None, ls != "off")
+    if assign == "tiny" and kind in spaces.TM:
+        iv = None  # tau = 0 with sigma 1e-4 beta: standardised gaps of ~1e4, far outside every envelope; identity clauses only
     seen_ids = []
     for i, To in enumerate(out):
         for j, p in enumerate(To):
@@ -87,7 +91,7 @@ def eval_case(kind, shape, r, enc, ls, assign="distinct"):
             seen_ids.append(p.id)
             if p.id != ids[i][j] or p.name != names[i][j]:
                 msgs.append(f"result[{i}][{j}] carries id/name of {p.name!r} (id {p.id[:8]}), the player passed there is {names[i][j]!r} (id {ids[i][j][:8]})")
-            if not ref.inside(p.mu, p.sigma, iv[i][j]):
+            if iv is not None and not ref.inside(p.mu, p.sigma, iv[i][j]):
                 msgs.append(f"result[{i}][{j}] = ({p.mu!r}, {p.sigma!r}) is not the posterior of the player passed at [{i}][{j}] "
                             f"(prior {game[i][j]}, reference mu [{iv[i][j][0]!r},{iv[i][j][1]!r}] sigma [{iv[i][j][2]!r},{iv[i][j][3]!r}])")
     if sorted(seen_ids) != sorted(x for T in ids for x in T):
